@@ -317,6 +317,18 @@ def run(repo: Repo, rep: Report, tier: str) -> None:
                 if isinstance(cur, (ast.For, ast.While)):
                     outer.append(cur)
             construct = f"visit_{cname} analyses {cname}.{fld} on every path"
+            # an enclosing loop is no zero-trip path if, ahead of it, an empty iterable is replaced by a non-empty list (the body of a loop that never runs is
+            # analysed once with a stand-in value)
+            if outer and isinstance(outer[0].iter, ast.Name):
+                v4 = outer[0].iter.id
+                cvm4 = __import__("fv.rules.util", fromlist=["canon"]).canon(vm)
+                for iff in [q for q in walk_local(vm.node) if isinstance(q, ast.If) and q.lineno < outer[0].lineno]:
+                    fills = [b for b in iff.body if isinstance(b, ast.Assign) and norm(b.targets[0]) == v4 and isinstance(b.value, ast.List) and len(b.value.elts) >= 1]
+                    t4 = cvm4.text(iff.test, iff)
+                    first_def = [a for a in cvm4.alts(ast.Name(id=v4, ctx=ast.Load()), iff)]
+                    if fills and any(("not " + a) in t4 for a in first_def):
+                        outer = []
+                        break
             if outer:
                 rep.bad("C14-R4", construct, f"body visit is nested in `for {norm(outer[0].target)} in {norm(outer[0].iter)}`: with zero iterations the body is never analysed", vm.loc(lp))
             else:
